@@ -98,6 +98,17 @@ def run_impl_sequential(cases, timeout=60):
         pool.terminate()
 
 
+def run_impl_fresh(cases, timeout=60, jobs=None):
+    """every case in its own fresh interpreter process (no earlier call in the same process)"""
+    if not cases:
+        return []
+    pool = mp.get_context("spawn").Pool(jobs or JOBS, maxtasksperchild=1)
+    try:
+        return pool.map(_impl_worker, [(c, timeout) for c in cases], chunksize=1)
+    finally:
+        pool.terminate()
+
+
 def close_pool():
     global _pool
     if _pool is not None:
